@@ -159,6 +159,8 @@ class Enum:
 class Closure:
     path: str
     captures: Tuple[Any, ...]
+    # generic bindings of the defining function instance (a closure shares its parent's generics)
+    subst: Any = field(default=None, compare=False, hash=False)
 
 
 @dataclass(frozen=True)
@@ -194,6 +196,7 @@ OPTION = 'std::option::Option'
 RESULT = 'std::result::Result'
 ORDERING = 'std::cmp::Ordering'
 CONTROL_FLOW = 'std::ops::ControlFlow'
+FPCATEGORY = 'std::num::FpCategory'
 
 # variant index -> discriminant value as printed by SwitchInt (u128)
 DISCR = {
@@ -201,6 +204,7 @@ DISCR = {
     RESULT: {0: 0, 1: 1},
     CONTROL_FLOW: {0: 0, 1: 1},
     ORDERING: {0: 255, 1: 0, 2: 1},   # Less = -1i8, Equal = 0, Greater = 1
+    FPCATEGORY: {0: 0, 1: 1, 2: 2, 3: 3, 4: 4},   # Nan, Infinite, Zero, Subnormal, Normal
 }
 
 
